@@ -704,6 +704,15 @@ class RecQueue(_queue.Queue):
             w = self._task()
             with ctl.cv:
                 ctl.log.append(('q_test', w, e, done))
+        if e and getattr(ctl, 'hold_empty', False):
+            # adversarial pre-emption between the two halves of the workers' loop test `not queue.empty() or not producer.done()`:
+            # the event-loop thread is held right after it saw an empty queue until the producer thread has queued its remaining
+            # chunks and returned (bounded wait).  Sound code re-tests; code whose `done()` can flip meanwhile leaves a chunk behind.
+            deadline = time.monotonic() + 0.4
+            with ctl.cv:
+                while time.monotonic() < deadline and not any(ev[0] == 'job_end' and ev[1] == ('P',) for ev in ctl.log[-400:]):
+                    ctl.cv.wait(0.02)
+                ctl.log.append(('q_test_resumed', w))
         return e
 
 
